@@ -444,7 +444,7 @@ pub fn c01_rejects_adjacency_list_n3() {
 }
 
 // AdjacencyMap::empty(2) + arbitrary arcs, then 2 ops with ids 0..4 (vertex growth).
-// @verif prop=C01 tier=thorough fl=f1 feat=map4 role=history/adjacency-map t=3600 mem=30
+// @verif prop=C01 tier=exp fl=f1 feat=map4 role=history/adjacency-map t=3600 mem=30
 #[cfg_attr(kani, kani::proof)]
 #[cfg_attr(kani, kani::unwind(10))]
 pub fn c01_history_adjacency_map_n2_x4_k2() {
@@ -458,7 +458,7 @@ pub fn c01_rejects_adjacency_map_n3() {
     rejects_map::<3>();
 }
 
-// @verif prop=C01 tier=thorough fl=f1 feat=map4 role=history/weighted t=3600 mem=30
+// @verif prop=C01 tier=exp fl=f1 feat=map4 role=history/weighted t=3600 mem=30
 #[cfg_attr(kani, kani::proof)]
 #[cfg_attr(kani, kani::unwind(10))]
 pub fn c01_history_weighted_n3_k2() {
